@@ -298,6 +298,7 @@ func runCutCase(c *RCase, x *sim.Ctx) *sim.Violation {
 		res := runReader(b.Format, b.Stream[:k], len(b.Content), c, len(b.Content)+4096, sub)
 		x.Step("api", sub.Counters["steps.api"])
 		x.Step("source", sub.Counters["steps.source"])
+		x.Ev("cut %d site=%s -> open=%v final=%v out=%d", k, st, res.OpenErr, res.Final, len(res.Out))
 		v := judgeDamaged(res, b.Content, b.Format, st, "cut at "+itoa(k)+" of "+itoa(len(b.Stream)), true)
 		if v != nil {
 			n := *c
@@ -355,7 +356,7 @@ func init() {
 			if tier == "thorough" {
 				return 60000
 			}
-			return 600
+			return 2500
 		},
 		Budget: func(tier string) time.Duration {
 			if tier == "thorough" {
